@@ -407,6 +407,17 @@ impl C08 {
                         rep.violation("values|LinuxSllHeader|layout", format!("{:?} -> {}", h, hex(&hb)), &hb);
                     }
                     rep.count(&format!("values.sll_protocol_variant.{}", format!("{:?}", h.protocol_type).split('(').next().unwrap_or("")));
+                    // the three serialisers: same bytes, exactly header_len() of them, the rest handed back starts behind them
+                    {
+                        let mut w = Vec::new();
+                        h.write(&mut w).unwrap();
+                        let mut s = [0xEEu8; 21];
+                        let rest = h.write_to_slice(&mut s).map(|r| (r.len(), r.as_ptr() as usize)).unwrap();
+                        let base = s.as_ptr() as usize;
+                        if w[..] != hb[..] || s[..16] != hb[..] || s[16..] != [0xEEu8; 5] || rest != (5, base + 16) || h.header_len() != 16 {
+                            rep.violation("values|LinuxSllHeader|serialisers_differ", format!("{:?}: write {} write_to_slice {} rest {:?} (slice of 21 at {:#x})", h, hex(&w), hex(&s), rest, base), &hb);
+                        }
+                    }
                     rt!("LinuxSllHeader", h.clone(), h.to_bytes().to_vec(), |b| LinuxSllHeader::from_slice(b).ok().map(|x| (x.0, x.1.len())));
                 }
                 4 => {
